@@ -92,8 +92,10 @@ fn run_scenario(line: &str) -> Vec<String> {
         let view = parse_view(&r[2]);
         // `synccf`: the same render with every element's children built before the element itself
         set_children_first(mode == "synccf");
+        // `synclit`: static text and attribute values are string literals (the same content = the same `&'static str`)
+        set_literals(mode == "synclit");
         let res = panic::catch_unwind(AssertUnwindSafe(|| match mode.as_str() {
-            "sync" | "synccf" => {
+            "sync" | "synccf" | "synclit" => {
                 let mut n = 0;
                 let mut sc = (0, 0);
                 let s = render_to_string(|| {
